@@ -631,6 +631,12 @@ def _r5_bracket(ctx, prog):
     ok_arr = isinstance(arr, ast.Call) and call_name(arr) == "np.insert" and len(arr.args) == 3 and \
         isinstance(arr.args[0], ast.Call) and call_name(arr.args[0]) == "np.cumsum" and \
         is_self_attr(arr.args[0].args[0], "_chunks") and const_value(arr.args[1]) == 0 and const_value(arr.args[2]) == 0
+    if not ok_arr and isinstance(arr, ast.Call) and call_name(arr) in ("np.concatenate", "np.hstack") and len(arr.args) == 1 and \
+            isinstance(arr.args[0], (ast.Tuple, ast.List)) and len(arr.args[0].elts) == 2:
+        # second accepted idiom: np.concatenate(([0], np.cumsum(chunks)))
+        z_, cs_ = arr.args[0].elts
+        ok_arr = isinstance(z_, (ast.List, ast.Tuple)) and [const_value(x_) for x_ in z_.elts] == [0] and \
+            isinstance(cs_, ast.Call) and call_name(cs_) == "np.cumsum" and cs_.args and is_self_attr(cs_.args[0], "_chunks")
     if not ok_arr:
         alt = isinstance(arr, ast.Call) and call_name(arr) in ("np.concatenate", "np.append", "np.r_")
         ctx.violated(fi, ret, "chunk limits %s are not [0, cumsum(chunks)...]" % at) if not alt else None
